@@ -1,13 +1,18 @@
 #!/usr/bin/env python3
 """Run the quick check of its property against every kept seeded change (/verif/seeded/<id>/).
 
-For each: git -C /repo apply (patch.rebased.diff if present, else patch.diff), ./check <prop>,
-git -C /repo checkout -- . ; writes /verif/seeded/SWEEP.json and prints one line per change.
+For each: git -C <repo> apply (patch.rebased.diff if present, else patch.diff), ./check <prop>,
+git -C <repo> checkout -- . ; writes /verif/seeded/SWEEP.json and prints one line per change.
 usage: seed_sweep.py [ids...] [--tier quick|thorough]
 """
 import glob, json, os, subprocess, sys, time
 
 ENV = dict(os.environ, GOFLAGS="-mod=mod", GOPROXY="off")
+# detection may run against a scratch worktree of /repo and a clone of /verif (SEED_REPO / SEED_VERIF)
+# so that other work using /repo and /verif is not disturbed while a seeded change is applied
+SREPO = os.environ.get("SEED_REPO", "/repo")
+SVERIF = os.environ.get("SEED_VERIF", "/verif")
+ENV["VERIF_REPO"] = SREPO
 
 # seeded change -> the check(s) that decide it, where that is not the property it was seeded for
 OTHER_CHECK = {"C02-D": ["C14"], "C01-E": ["C14"]}
@@ -27,7 +32,7 @@ def main():
     dirs = sorted(glob.glob("/verif/seeded/C*-*"))
     if args:
         dirs = [d for d in dirs if os.path.basename(d) in args]
-    rc, out = sh("git -C /repo status --porcelain")
+    rc, out = sh("git -C " + SREPO + " status --porcelain")
     if out.strip():
         print("ERROR: /repo is not clean"); sys.exit(3)
     res = {}
@@ -37,7 +42,7 @@ def main():
         patch = os.path.join(d, "patch.rebased.diff")
         if not os.path.exists(patch):
             patch = os.path.join(d, "patch.diff")
-        rc, out = sh("git -C /repo apply " + patch)
+        rc, out = sh("git -C " + SREPO + " apply " + patch)
         if rc != 0:
             res[sid] = {"applies": False, "error": out[-300:]}
             print(sid, "DOES NOT APPLY"); continue
@@ -47,17 +52,17 @@ def main():
         caught, first, rc = False, [], 0
         try:
             for cid in checks:
-                rc, out = sh("./check %s --tier %s" % (cid, tier), cwd="/verif")
+                rc, out = sh("./check %s --tier %s" % (cid, tier), cwd=SVERIF)
                 if rc == 1 and ("VIOLATION property=" + cid) in out:
                     caught = True
                     first = [cid + ": " + l.strip()[:300] for l in out.splitlines() if l.startswith("  ")][:1]
                     break
         finally:
-            sh("git -C /repo checkout -q -- .")
+            sh("git -C " + SREPO + " checkout -q -- .")
         res[sid] = {"applies": True, "exit": rc, "caught": caught, "checks": checks, "wall_s": round(time.time() - t0, 1), "first_violation": first}
         print(sid, "caught" if res[sid]["caught"] else "MISSED (exit %d)" % rc, first[0][:160] if first else "")
-    json.dump({"tier": tier, "repo_head": sh("git -C /repo rev-parse --short HEAD")[1].strip(), "results": res}, open("/verif/seeded/SWEEP.json", "w"), indent=1)
-    sh("git -C /verif checkout -q -- evidence 2>/dev/null; git -C /verif clean -fdq evidence/replays", cwd="/verif")
+    json.dump({"tier": tier, "repo_head": sh("git -C " + SREPO + " rev-parse --short HEAD")[1].strip(), "results": res}, open("/verif/seeded/SWEEP.json", "w"), indent=1)
+    sh("git -C %s checkout -q -- evidence 2>/dev/null; git -C %s clean -fdq evidence/replays" % (SVERIF, SVERIF), cwd=SVERIF)
     missed = [k for k, v in res.items() if not v.get("caught")]
     print("%d/%d caught; missed: %s" % (len(res) - len(missed), len(res), missed))
 
